@@ -231,7 +231,7 @@ def run(ctx):
     ctx.ob('C20.b', f'{sm.qual}._reset:keeps-counter', not touched, '' if not touched else '_reset rewinds the message-id counter: ids are reused across stream restarts', m.rel, rs.lineno)
 
     # ------------------------------------------------------------------ C20.c
-    ctx.rule('C20.c', '_manage_stream: every except arm puts the None sentinel on the request queue (so the request iterator of the broken '
+    ctx.rule('C20.c', '_manage_stream: the normal end of the response loop is turned into a break (raise / publish by hand); every except arm puts the None sentinel on the request queue (so the request iterator of the broken '
              'stream terminates); the CancelledError arm breaks; the general arm publishes the exception to all waiters and loops', floor=4, style='MPT')
     ms = repo.method(sm.qual, '_manage_stream')
     tries = [n for n in ast.walk(ms) if isinstance(n, ast.Try)]
@@ -258,6 +258,21 @@ def run(ctx):
             if isinstance(l, ast.AsyncFor) and isinstance(l.target, ast.Name) and l.target.id == pubcalls[0].args[0].id:
                 ok = True
     ctx.ob('C20.c', f'{sm.qual}._manage_stream:publishes-each-response', ok, '' if ok else 'responses are not all forwarded to the demultiplexer', m.rel, ms.lineno)
+
+    # the response loop may also simply end (the server closes the stream without an error): that is a broken stream too
+    body = tries[0].body
+    afors = [i for i, s_ in enumerate(body) if isinstance(s_, ast.AsyncFor)]
+    ok = False
+    if afors:
+        rest = body[afors[-1] + 1:]
+        # what follows the loop inside the try either raises into the arms above, or does by hand what they do
+        raises = any(isinstance(s_, ast.Raise) for s_ in rest)
+        by_hand = any(isinstance(c, ast.Call) and call_name(c) == 'publish_exception' for s_ in rest for c in ast.walk(s_)) and \
+            any(isinstance(c, ast.Call) and call_name(c) == 'put' and len(c.args) == 1 and isinstance(c.args[0], ast.Constant) and c.args[0].value is None for s_ in rest for c in ast.walk(s_))
+        ok = raises or by_hand
+    ctx.ob('C20.c', f'{sm.qual}._manage_stream:end-of-stream-is-a-break', ok, '' if ok else
+           'when the response loop ends without an exception (the server closed the stream) the coroutine just opens a new stream: no sentinel, no notification - the executions whose '
+           'requests were in flight wait for ever for a response that cannot come', m.rel, ms.lineno)
 
     # ------------------------------------------------------------------ C20.d
     ctx.rule('C20.d', 'retry table: (error code, kind of current request) -> next request equals the table that makes the job run once; '
